@@ -1191,10 +1191,11 @@ class JarPathStream(Stream):
 
 CHECK = Check(
     prop="C13",
-    gen=["Cookie", "CookieGlue", "UrlTables", "PyFns_Cookie", "Http", "PyFns_Http", "PyFns_HttpDict", "PyFns_Internal"],
-    modules=["WzVerif.Props.C13", "WzVerif.Props.C13T"],
+    gen=["Cookie", "CookieGlue", "UrlTables", "PyFns_Cookie", "Http", "PyFns_Http", "PyFns_HttpDict", "PyFns_Internal", "PyFns_CookieJar"],
+    modules=["WzVerif.Props.C13", "WzVerif.Props.C13T", "WzVerif.Props.C13T2"],
     streams=[ValueStream(), AttrStream(), ParseStream(), RespStream(), JarStream(), MatchStream(), IntKernel(), JarPathStream()],
     assumptions=[
+        "C13T2 (test.Cookie._matches_request / _should_delete / _storage_key as regenerated from the source): Cookie.expires is handed over as its timestamp (or None)",
         "round 3 (Props/C13T): dump_cookie (expires as str, max_age as int), http.parse_cookie (str form) and sansio.http.parse_cookie are regenerated from the source by tools/py2lean.py (Gen/PyFns_Cookie.lean) on every run and proved equal to the hand model dumpCookie / parseCookieEnviron / parseCookie for all inputs, including which exception escapes first (IDNA, then SameSite ValueError, then the value escaping); the cookie regexes enter as the model's functions over the regenerated tables (their shapes are pinned by regex_shapes), urllib quote as C15's model with the safe= literal of the source, the IDNA codec and http_date(now + max_age) are parameters; CPython primitives (str.title for ASCII, partition, lstrip(chars), latin-1 / UTF-8 codecs) are modelled in Util/PyPrelude.lean and validated by the stream prelude-kernels of the checks that run it",
         "opaque library calls (fields of Model/CookieAttrs.lean `Lib`, every theorem quantifies over them; the harness tabulates them per case with the same library functions): the idna codec on NON-ASCII hosts, http_date of a datetime/timestamp, http_date(now + max_age) for sync_expires (canonicalised to a 29-character placeholder when it denotes now + max_age within 2 s), uri_to_iri of the Path attribute and parse_date of the Expires attribute in the test client's jar",
         "modelled and validated by the streams, not verified: urllib.parse.quote with dump_cookie's safe= literal (live 256-byte table quoteKeeps + %XX), the idna codec's ASCII fast path (identity + label-length rule), int(timedelta.total_seconds()) as truncation (exact for |td| < 2^33 s; the generators stay below 200 years), str.title()/lower() on ASCII letters, int() on sign + decimal digits of any script with single underscores (the digit runs are a regenerated table of the live interpreter, obligation jar_int_digit_table; the parse itself is validated by stream int-kernel)",
